@@ -230,7 +230,9 @@ func (p ProprietaryMACCommandPayload) MarshalBinary() ([]byte, error) {
 
 // UnmarshalBinary decodes the object from a slice of bytes.
 func (p *ProprietaryMACCommandPayload) UnmarshalBinary(data []byte) error {
-	p.Bytes = data
+	// copy the bytes, the caller might re-use the data slice
+	p.Bytes = make([]byte, len(data))
+	copy(p.Bytes, data)
 	return nil
 }
 
